@@ -311,8 +311,43 @@ let run_slotmap file =
     end
   done with End_of_file -> ())
 
+(* ---------- unit mode: the sparse map alone (same op language and output as `h_units sparsemap`) ---------- *)
+let run_sparsemap file =
+  let ic = open_in file in
+  let sp : int spm ref = ref sp_empty in
+  let sopt = function None -> "None" | Some v -> Printf.sprintf "Some(%d)" v in
+  (try while true do
+    let line = String.trim (input_line ic) in
+    if line = "" || line.[0] = '#' then () else
+    if line = "reset" then (sp := sp_empty; print_string "RESET\n") else begin
+      toks := List.filter (fun s -> s <> "") (String.split_on_char ' ' line);
+      let op = next () in
+      (match op with
+       | "i" -> let k = next_int () in let v = next_int () in
+           (match sp_insert !sp (ni k) v with
+            | Val (old, m') -> sp := m'; Printf.printf "i %s\n" (sopt old)
+            | Panic -> print_string "i panic\n"
+            | UB l -> Printf.printf "i UB%d\n" (inn l))
+       | "r" -> let k = next_int () in
+           (match sp_remove !sp (ni k) with
+            | Val (old, m') -> sp := m'; Printf.printf "r %s\n" (sopt old)
+            | Panic -> print_string "r panic\n"
+            | UB l -> Printf.printf "r UB%d\n" (inn l))
+       | "g" -> let k = next_int () in
+           (match sp_get !sp (ni k) with
+            | Val o -> Printf.printf "g %s\n" (sopt o)
+            | Panic -> print_string "g panic\n"
+            | UB l -> Printf.printf "g UB%d\n" (inn l))
+       | "s" -> sp := sp_shrink !sp; print_string "s\n"
+       | _ -> failwith ("bad sparsemap op " ^ op));
+      let j l = String.concat "," (List.map string_of_int l) in
+      Printf.printf "= sparse=[%s] keys=[%s] values=[%s]\n" (j (List.map inn (!sp).sp_sparse)) (j (List.map inn (sp_keys !sp))) (j (sp_values !sp))
+    end
+  done with End_of_file -> ())
+
 let () =
   if Array.length Sys.argv > 2 && Sys.argv.(1) = "slotmap" then run_slotmap Sys.argv.(2) else
+  if Array.length Sys.argv > 2 && Sys.argv.(1) = "sparsemap" then run_sparsemap Sys.argv.(2) else
   let want_snap = Array.length Sys.argv > 2 && Sys.argv.(2) = "snap" in
   let ic = open_in Sys.argv.(1) in
   let n = ref 0 in
